@@ -171,14 +171,17 @@ def inputs_for(v, prop, tier, tag):
             items.append({"max": mx, "endings": endings})
             items.append({"max": mx, "endings": [rnd.choice(endings) for _ in range(6 if q else 14)]})
     elif prop == "C16":
-        sts = ["idle", "mid-frame", "pipelined-partial", "mid-command", "writing-reply"]
+        sts = ["idle", "mid-frame", "pipelined-partial", "pipelined-partial-big", "mid-command", "writing-reply"]
         for s in sts:
             items.append({"states": [s]})
             items.append({"states": [s, s]})
+            items.append({"states": [s], "max": 1})
         for a in sts:
             for b in sts:
                 if a < b:
                     items.append({"states": [a, b]})
+                    # exactly max_connections clients: the listener is waiting for a permit at the signal
+                    items.append({"states": [a, b], "max": 2})
         items.append({"states": sts})
         items.append({"states": sts + sts})
         if not q:
